@@ -49,7 +49,11 @@ fn run_case<G: AffineRepr>(env: &Env<G>, c: &Case) -> CaseOut {
     let mut r = R::new(c.seed);
     if c.bases == 4 {
         // the commitment returned by the prover equals PedersenGens::commit of its inputs
-        let cfg = random_cfg(&mut r, 6);
+        let mut cfg = random_cfg(&mut r, 6);
+        if c.n >= 100 {
+            // one prover committing very many values (edge and random scalars)
+            cfg = crate::gen::GenCfg { m: c.n, q: 0, ..crate::gen::GenCfg::simple(0, 0) };
+        }
         let prog = gen_program(c.seed, &cfg);
         let po = prove::<G>(env, &prog, &[], &env.bp, c.seed);
         let m = &po.st.model;
@@ -70,6 +74,11 @@ fn run_case<G: AffineRepr>(env: &Env<G>, c: &Case) -> CaseOut {
         0 => env.pc,
         1 => PedersenGens { B: dbl_add(&env.pc.B, &rs[0]).into_affine(), B_blinding: dbl_add(&env.pc.B, &rs[1]).into_affine() },
         2 => PedersenGens { B: env.pc.B_blinding, B_blinding: env.pc.B_blinding },
+        5 => match env.torsion {
+            // bases carrying a small-order component (only on curves with a cofactor)
+            Some(t) => PedersenGens { B: (env.pc.B.into_group() + t.into_group()).into_affine(), B_blinding: (env.pc.B_blinding.into_group() + t.into_group() + t.into_group()).into_affine() },
+            None => env.pc,
+        },
         _ => PedersenGens { B: G::zero(), B_blinding: env.pc.B },
     };
     let sv = scalars(&mut r, c.n);
@@ -97,7 +106,13 @@ fn run_case<G: AffineRepr>(env: &Env<G>, c: &Case) -> CaseOut {
                 continue;
             }
             o.count("commit == v*B + r*B~ (double-and-add)", 1);
-            // homomorphism with the previous tuple
+            // homomorphism with the previous tuple (for bases carrying a small-order component the sum
+            // of two scalars wraps modulo the group order while the torsion part does not: the laws are
+            // not meaningful there, only the defining formula above is)
+            if c.bases == 5 && env.torsion.is_some() {
+                prev = Some((*v, b, got));
+                continue;
+            }
             if let Some((pv, pb, pp)) = prev {
                 let sum = (got.into_group() + pp.into_group()).into_affine();
                 if sum != pc.commit(*v + pv, b + pb) {
@@ -132,12 +147,15 @@ fn cases(ctx: &Ctx, curve: &str) -> Vec<Case> {
     let mut v = vec![];
     let chunks = ctx.n(40, 600);
     for i in 0..chunks {
-        for bases in 0..4u8 {
+        for bases in [0u8, 1, 2, 3, 5] {
             v.push(Case { curve: curve.into(), seed: r.u64(), bases, n: if i == 0 { 14 } else { 60 } });
         }
     }
     for _ in 0..ctx.n(200, 3000) {
         v.push(Case { curve: curve.into(), seed: r.u64(), bases: 4, n: 0 });
+    }
+    for _ in 0..ctx.n(2, 20) {
+        v.push(Case { curve: curve.into(), seed: r.u64(), bases: 4, n: 140 + r.below(60) });
     }
     v
 }
